@@ -134,6 +134,8 @@ def run(ctx):
     for rep in range(ctx.n(1, 6)):
         for m in meshes.zoo(ctx.rng, big=(ctx.thorough or ctx.escalate or rep == 0)):
             judge(ctx, m, m.kind)
+            if m.n_face <= 40 and ctx.rng.random() < 0.3:
+                judge(ctx, meshes.with_orphans(m, ctx.rng), m.kind + "+orphans")
 
 
 def replay(ctx, rp):
